@@ -254,6 +254,29 @@ Definition decode_src {T} (m : mode) (op : cons -> M (T * cons)) : M T :=
   rc <- op (mkCons Unbounded m) ;; let '(r, c) := rc in
   cons_exhausted c ;;; ret r.
 
+(* Captured::decode_partial: Mode::decode on the captured octets through `&mut source`; what the closure did
+   not consume stays in the captured value *)
+Definition decode_partial {T} (m : mode) (op : cons -> M (T * cons)) (bytes : list N) : res (T * list N) :=
+  match decode_src m op (pure_src bytes None) with
+  | (Ok v, s') => Ok (v, rem s')
+  | (CErr, _) => CErr | (SErr, _) => SErr | (Panic, _) => Panic | (NoFuel, _) => NoFuel
+  end.
+(* k successive partial decodes *)
+Fixpoint decode_partials {T} (m : mode) (op : cons -> M (T * cons)) (k : nat) (bytes : list N)
+  : res (list T * list N) :=
+  match k with
+  | O => Ok ([], bytes)
+  | S k' =>
+    match decode_partial m op bytes with
+    | Ok (v, r) =>
+        match decode_partials m op k' r with
+        | Ok (vs, r') => Ok (v :: vs, r')
+        | CErr => CErr | SErr => SErr | Panic => Panic | NoFuel => NoFuel
+        end
+    | CErr => CErr | SErr => SErr | Panic => Panic | NoFuel => NoFuel
+    end
+  end.
+
 (* ---------- the generic reader used as the reference caller ---------- *)
 Inductive tlv := TPrim (t : tag) (c : list N) | TCons (t : tag) (kids : list tlv).
 
